@@ -3,7 +3,11 @@ package main
 import (
 	"context"
 	"fmt"
+	"github.com/celestiaorg/go-header/store"
 	"strings"
+	"sync"
+	"time"
+	"verifharness/vhdr"
 
 	"verifharness/memds"
 )
@@ -177,7 +181,71 @@ func faultCase(r *rng) {
 	emit("end")
 }
 
+// stopDuringSyncCase: Stop overlaps a Sync while headers are still unflushed (big write batch). The flush loop is parked in
+// a datastore read; a Sync request, an Append and Stop queue up behind it; then it goes on. Everything whose Append
+// returned before Stop must be there after the restart.
+func stopDuringSyncCase(trial int) {
+	ctx := context.Background()
+	chain := vhdr.Chain("A", 8, storeT0, int64(time.Second), 0)
+	core := memds.NewCore()
+	open := func() *store.Store[*vhdr.Header] {
+		st, err := store.NewStore[*vhdr.Header](&memds.Plain{C: core}, store.WithWriteBatchSize(64))
+		if err != nil {
+			panic(err)
+		}
+		if err := func() error { sc, end := startCtx(); defer end(); return st.Start(sc) }(); err != nil {
+			panic(err)
+		}
+		return st
+	}
+	st := open()
+	_ = st.Append(ctx, chain[:5]...)
+	_ = st.Sync(ctx)
+	parked, release := make(chan struct{}), make(chan struct{})
+	var fired sync.Once
+	core.GetGate = func(string) { fired.Do(func() { close(parked); <-release }) }
+	_ = st.Append(ctx, chain[5]) // the flush loop takes it and parks in its first datastore read
+	was := "yes"
+	select {
+	case <-parked:
+	case <-time.After(time.Second):
+		was = "no"
+	}
+	sdone, stopdone := make(chan error, 1), make(chan error, 1)
+	go func() { c, cancel := context.WithTimeout(ctx, 3*time.Second); defer cancel(); sdone <- st.Sync(c) }()
+	time.Sleep(2 * time.Millisecond)
+	actx, cancelA := context.WithTimeout(ctx, time.Second)
+	aerr := st.Append(actx, chain[6]) // returns (queued) before Stop is called
+	cancelA()
+	go func() { c, cancel := context.WithTimeout(ctx, 3*time.Second); defer cancel(); stopdone <- st.Stop(c) }()
+	time.Sleep(2 * time.Millisecond)
+	close(release)
+	core.GetGate = nil
+	serr, sterr := <-sdone, <-stopdone
+	st2 := open()
+	defer st2.Stop(ctx) //nolint:errcheck
+	hd := uint64(0)
+	if h, err := st2.Head(ctx); err == nil {
+		hd = h.H
+	}
+	var stored []string
+	for h := 1; h <= 8; h++ {
+		if x, err := st2.GetByHeight(cancelled, uint64(h)); err == nil && x.H == uint64(h) {
+			stored = append(stored, itoa(h))
+		}
+	}
+	want := 6
+	if aerr == nil {
+		want = 7
+	}
+	emit("C06 kind=stopsync trial=%d => parked=%s sync=%s append=%s stop=%s head=%d stored=%s want=%d", trial, was, errs(serr), errs(aerr), errs(sterr), hd,
+		strings.Join(stored, ","), want)
+}
+
 func runC06(tier string, r *rng) {
+	for trial := 0; trial < 8; trial++ { // which ready channel the flush loop's select takes is the runtime's choice
+		stopDuringSyncCase(trial)
+	}
 	n, nf := 25, 40
 	if tier == "thorough" {
 		n, nf = 600, 600
